@@ -29,6 +29,36 @@ CLAIMS = {
         ref="§7 C04"),
 }
 
+CLAIMS.update({
+    "C02": dict(
+        technique="Lean 4 proof of parser+interpreter correctness w.r.t. a reference evaluator over stratified expression trees (all trees, all number types) + bit-exact differential enumeration of renderings",
+        text="Proof (for every number type incl. IEEE doubles, every tree of any depth): parsing the token sequence of a tree consumes it entirely and the "
+             "interpreter returns the textbook value (parse_eval; explicit fuel bound 4*len+5 <= parseFuel proved sufficient), missing_token_adder leaves it "
+             "unchanged unless a sign stands at its start position (post_stable; that case is `line_eval_partial`'s hypothesis and is decided by "
+             "correspondence), side-by-side literals add (adjacent_add), and over Rat a sign negates / division by zero yields 0. String level "
+             "(every spacing lexes to that token sequence; k..Y suffixes) is decided by enumeration: tree evaluated with doubles in tree order must "
+             "equal the implementation bit-for-bit. Eight arithmetic defects found this way were repaired in /repo.",
+        note="Trusted: Lean kernel + 3 standard axioms; regex layer / lexer glue not modelled (exercised by every generated line); model tied by line-level correspondence on the implementation's own lexed tokens (values, raw tokens).",
+        ref="§7 C02"),
+    "C05": dict(
+        technique="Lean 4 theorems over exact rationals for all seven phrases (numbers and money) + pattern-level theorems against the regenerated rule patterns + differential oracle",
+        text="Proof over Rat for ALL x, a, b, p: X+p%, X-p% (interpreter), p% of/on/off X in both operand orders, A is what % of B (0 when B=0), "
+             "A is p% of what, each also for money keeping the currency; token level: the rule patterns REGENERATED from config.json match the "
+             "phrases' token sequences and bind the fields the rule functions read (phrase_* theorems re-checked by the kernel on every run). "
+             "Implementation compared with the exact formula (rel 1e-9) and bit-for-bit with the Float model.",
+        note="Trusted: Lean kernel + 3 axioms; floating-point rounding modelled not verified; percent lexer glue exercised by generated lines only.",
+        ref="§7 C05"),
+    "C06": dict(
+        technique="Lean 4 theorems over exact rationals (conversion, money arithmetic), history theorem for update_currency over all update sequences, kernel-decided data obligations on the regenerated rate/alias tables + exhaustive pair enumeration",
+        text="Proof over Rat: convert a A->B = a*(rate B/rate A), identity for A=B, +/- convert the right operand, * and / by numbers keep the currency, "
+             "money/money is the ratio in the left currency; rate_frame: after ANY history of update_currency calls the rate of each currency is the "
+             "last value written for it (by any name denoting it) else the configured one, false return iff unknown name and then no change; data "
+             "obligations by `decide` over the tables regenerated from config.json (every rate names a currency, aliases resolve, no zero rate). "
+             "Implementation: all 1024 ordered pairs exhaustively + spellings + arithmetic + update histories against the exact table.",
+        note="Trusted: Lean kernel + 3 axioms; translator (cross-checks serde_json's reading of each rate); money regexes exercised not modelled.",
+        ref="§7 C06"),
+})
+
 NOT_YET = {}
 
 
